@@ -306,7 +306,17 @@ NonStringKey(d, e) ==
       respelled == \E n1, n2 \in keyNums : DEq(n1, n2) /\ <<n1.neg, n1.d, n1.e>> # <<n2.neg, n2.d, n2.e>>
       ordered == e.op \in {"Query", "Walk"} /\ tbl.range.some /\ tbl.range.ty # "S"
   IN respelled \/ ordered
-OpSig(d, e) == OpSig0(d, e) \cup (IF NonStringKey(d, e) THEN { <<"non-string-key">> } ELSE {}) \cup (IF StoredEmpty(d, e) \/ (e.op = "PutItem" /\ ItemHasEmpty(e.item)) THEN { <<"empty-container">> } ELSE {})
+\* the same deviation seen by the observation attached to an event: the GetItem calls of an observation use every key the
+\* trace has mentioned so far, stored or not
+ObsCollide(d, e) ==
+  "o1" \in DOMAIN e /\ e.o1.some /\
+  LET a == After(d, e) IN
+  \E i \in DOMAIN e.o1.cs : \E j \in DOMAIN e.o1.cs[i].tables :
+     LET c == e.o1.cs[i].c
+         ot == e.o1.cs[i].tables[j]
+     IN c \in DOMAIN a /\ ot.t \in DOMAIN a[c].tables /\
+        KeysCollide(a[c].tables[ot.t], a[c].tables[ot.t].items \cup { ot.gets[k].key : k \in DOMAIN ot.gets })
+OpSig(d, e) == OpSig0(d, e) \cup (IF ObsCollide(d, e) THEN { <<"key-encodings-collide">> } ELSE {}) \cup (IF NonStringKey(d, e) THEN { <<"non-string-key">> } ELSE {}) \cup (IF StoredEmpty(d, e) \/ (e.op = "PutItem" /\ ItemHasEmpty(e.item)) THEN { <<"empty-container">> } ELSE {})
 
 TraceInit == l = 1 /\ db = InitDB /\ fails = <<>> /\ TLCSet(1, 1) /\ TLCSet(2, <<>>)
 
